@@ -227,7 +227,7 @@ fn check_type<T: Jetty>(tname: &str, ctx: &Ctx, shard: usize, nshards: usize, ti
             }
         }
         // long dynamically sized parts (more than 1000 entries): nothing may be elided
-        if ci % 1000 == 7 {
+        if ci % 1000 == 7 && ci < 60_000 {
             let long = if rng.bool() { T::shape((1001 + rng.below(700), 1)) } else { T::shape((1, 1001 + rng.below(700))) };
             if long.nslots() > 1000 && long.nslots() < 6000 && !nested_matrix(&long) {
                 shape = long;
